@@ -1,6 +1,6 @@
 (* C14 proofs about the model in C14Model.v. *)
 From Coq Require Import List Arith ZArith Bool Lia.
-From PM Require Import Base C14Model.
+From PM Require Import Base Mask C14Model.
 Import ListNotations.
 Arguments red_shape : simpl never.
 Arguments out_shape : simpl never.
@@ -8,12 +8,6 @@ Arguments all_mi : simpl never.
 Arguments merge_idx : simpl never.
 Arguments bproj : simpl never.
 
-Lemma or_m_spec m1 m2 s1 s2 r :
-  mget (or_m m1 m2 s1 s2) r = mget m1 (bproj s1 r) || mget m2 (bproj s2 r).
-Proof.
-  destruct m1 as [[|]|f], m2 as [[|]|g]; simpl; auto;
-    try (destruct (f _); reflexivity); try (rewrite orb_false_r; reflexivity).
-Qed.
 
 (* --- Kleene and / or, every element, every shape, every mask representation --- *)
 Lemma tvl_and_kleene a b o r :
